@@ -224,6 +224,7 @@ func (e *Engine) setupIntrinsics() {
 	n[p+"vpObserveStr"] = obs("str")
 	n[p+"vpObserveBool"] = obs("bool")
 	n[p+"vpHash"] = func(e *Engine, st *State, fn *ssa.Function, a []Value) Value {
+		effect(st, "vpHash") // its consistency axioms extend the path condition
 		bs := e.elems(st, a[0])
 		ts := make([]*Term, len(bs))
 		for i, b := range bs {
